@@ -486,3 +486,48 @@ def assume_ok(t):
         elif x[0] == 'app' and x[1] in ('is:Ok', 'is:Some'):
             m[x] = T.TRUE
     return T.subst(t, m) if m else t
+
+
+# ---------------------------------------------------------------------- precision-narrowing conversions (THIR scan)
+
+NARROW_CALLS = ('burn::tensor::ElementConversion::elem', 'burn::tensor::cast::ToElement::to_f32', 'num_traits::ToPrimitive::to_f32',
+                'burn::tensor::TensorData::convert', 'burn::tensor::cast::ToElement::to_f16', 'burn::tensor::cast::ToElement::to_bf16',
+                'burn::tensor::Tensor::cast')
+FLOAT_RANK = {'f16': 1, 'bf16': 1, 'f32': 2, 'f64': 3}
+
+
+def narrowing_sites(ctx, bodies):
+    """Conversions that fix a narrower float type on possibly wider data: elem::<f32>() / to_f32() / convert::<f32>() on values of
+    generic element type (or f64), and `as f32` casts of such values.  Returns [(fn path, description, span)]."""
+    out = []
+
+    def visit(root, b):
+        def f(n):
+            k = n.get('k')
+            if k == 'Call' and n.get('fn') and callee_key(n['fn']) in NARROW_CALLS:
+                key = callee_key(n['fn'])
+                args = n['fn'].get('args', [])
+                tgt = None
+                if key.endswith('::elem') and len(args) > 1:
+                    tgt = args[1]
+                elif key.endswith('::convert') and args:
+                    tgt = args[0]
+                elif key.endswith('to_f32'):
+                    tgt = 'f32'
+                elif key.endswith('to_f16') or key.endswith('to_bf16'):
+                    tgt = 'f16'
+                src = (n.get('args') or [{}])[0].get('ty', '?').lstrip('&')
+                if tgt in FLOAT_RANK and FLOAT_RANK.get(src, 99) > FLOAT_RANK[tgt]:
+                    out.append((strip_generics(root['path']), '%s to %s on a value of type %s' % (key.split('::')[-1], tgt, src), n.get('sp')))
+            if k == 'Cast' and n.get('ty') in FLOAT_RANK:
+                src = n['e'].get('ty', '?')
+                if (src in FLOAT_RANK and FLOAT_RANK[src] > FLOAT_RANK[n['ty']]) or (src not in FLOAT_RANK and not src.startswith(('u', 'i')) and src not in ('bool',)):
+                    out.append((strip_generics(root['path']), 'cast `as %s` of a value of type %s' % (n['ty'], src), n.get('sp')))
+        walk(b.get('thir'), f)
+        for c in ctx.facts.children.get(b['did'], []):
+            if c['def_kind'] == 'Closure':
+                visit(root, c)
+    for b in bodies:
+        if b is not None:
+            visit(b, b)
+    return out
